@@ -92,6 +92,10 @@ func medianTimePast(b *lab.Blk) time.Time {
 
 func buildWorld(parent []int, label []byte) *world {
 	p := lab.RegtestLike()
+	// maturity 1: a block may spend its parent's coinbase, so blocks below
+	// depth 1 carry 1 + (i mod 3) transactions and the snapshot's per-block
+	// and cumulative counts differ between a block and its parent
+	p.CoinbaseMaturity = 1
 	w := &world{params: p, parent: parent, label: label, byHash: map[chainhash.Hash]int{}}
 	n := len(parent)
 	w.blk = make([]*lab.Blk, n)
@@ -110,6 +114,15 @@ func buildWorld(parent []int, label []byte) *world {
 			o.Time = medianTimePast(par) // must be strictly greater
 		case lS:
 			o.PostMerkle = func(m *wire.MsgBlock) { m.Header.MerkleRoot[0] ^= 0x55 }
+		}
+		if parent[i] != 0 {
+			prev := wire.OutPoint{Hash: lab.TxID(par.Msg.Transactions[0]), Index: 0}
+			val := par.Msg.Transactions[0].TxOut[0].Value
+			for k := 0; k < i%3; k++ {
+				tx := lab.Spend([]wire.OutPoint{prev}, []int64{val})
+				o.Txs = append(o.Txs, tx)
+				prev = wire.OutPoint{Hash: lab.TxID(tx), Index: 0}
+			}
 		}
 		w.blk[i] = lab.Build(p, par, o)
 		w.byHash[w.blk[i].Hash] = i
@@ -342,8 +355,21 @@ func (s *sys) check() string {
 	if int(best.Height) != w.height[tip] {
 		return fmt.Sprintf("BestSnapshot.Height=%d, tip %d has height %d", best.Height, tip, w.height[tip])
 	}
-	if best.TotalTxns != uint64(1+w.height[tip]) {
-		return fmt.Sprintf("BestSnapshot.TotalTxns=%d want %d", best.TotalTxns, 1+w.height[tip])
+	var total uint64
+	for n := tip; ; n = w.parent[n] {
+		total += uint64(len(w.blk[n].Msg.Transactions))
+		if n == 0 {
+			break
+		}
+	}
+	if best.TotalTxns != total {
+		return fmt.Sprintf("BestSnapshot.TotalTxns=%d but the blocks of the active chain hold %d transactions", best.TotalTxns, total)
+	}
+	tb := w.blk[tip].Msg
+	if best.NumTxns != uint64(len(tb.Transactions)) || best.Bits != tb.Header.Bits ||
+		best.BlockSize != uint64(tb.SerializeSize()) || !best.MedianTime.Equal(medianTimePast(w.blk[tip])) {
+		return fmt.Sprintf("BestSnapshot of tip %d: NumTxns=%d Bits=%x BlockSize=%d MedianTime=%v; the tip block has %d, %x, %d, %v",
+			tip, best.NumTxns, best.Bits, best.BlockSize, best.MedianTime.Unix(), len(tb.Transactions), tb.Header.Bits, tb.SerializeSize(), medianTimePast(w.blk[tip]).Unix())
 	}
 	onMain := map[int]bool{0: true}
 	for n := tip; n != 0; n = w.parent[n] {
